@@ -28,14 +28,20 @@ inductive Val where
   /-- a user value (by identity) -/
   | id (i : Id)
   | object | name | self | trait | args | event | handler | weak | exc
+  /-- the handler passed to `equals` -/
+  | cand
+  /-- a method name -/
+  | nameV (k : Nat)
+  /-- `type(x)` / `MethodType`: is it the bound-method type? -/
+  | ty (isMethod : Bool)
   deriving DecidableEq, Repr
 
 inductive Glob where
-  | Uninitialized | pre_tracer | post_tracer | other (s : String)
+  | Uninitialized | pre_tracer | post_tracer | MethodType | other (s : String)
   deriving DecidableEq, Repr
 
 inductive Attr where
-  | type | comparison_mode | old | new | object | name | handler | notify_listener
+  | type | comparison_mode | old | new | object | name | handler | notify_listener | dunder_self | dunder_name
   | other (s : String)
   deriving DecidableEq, Repr
 
@@ -57,6 +63,8 @@ inductive Fn where
   | event_factory            -- `self.event_factory(*args, **kwargs)`
   | prevent_event            -- `self.prevent_event(event)`
   | tracer                   -- `_pre_change_event_tracer(...)` / `_post_change_event_tracer(...)`
+  | type_of                  -- `type(x)`
+  | owner_deref              -- `self.object()`: the listener object of a method wrapper (None when dead)
   deriving DecidableEq, Repr
 
 inductive Expr where
@@ -89,6 +97,16 @@ structure Func where
   body : Stmt
   deriving Repr
 
+/-- A handler as `on_trait_change(handler, …)` / `equals(handler)` receives it. -/
+inductive Cand where
+  /-- the wrapper itself -/
+  | self
+  /-- a plain function (by identity) -/
+  | func (f : Id)
+  /-- a bound method `owner.name` (`owner = none`: `__self__` is None) -/
+  | method (owner : Option Id) (name : Nat)
+  deriving DecidableEq, Repr
+
 /-- What the interpreter is run with: the environment, the trait, the wrapper being called (its notifier-list
 entry and the list it sits in) and the change it is called with. -/
 structure WC where
@@ -98,6 +116,14 @@ structure WC where
   loc : Loc
   old : Id
   new : Id
+  /-- `self.name`: the method name of a method wrapper, None for a function wrapper -/
+  wrapName : Option Nat := none
+  /-- what the weak reference `self.object` of a method wrapper refers to (None: the listener is gone) -/
+  wrapOwner : Option Id := none
+  /-- `self.handler` of a function wrapper -/
+  wrapFn : Id := 0
+  /-- the handler `equals` is asked about -/
+  cand : Cand := .func 0
 
 structure MS where
   vars : Nat → Val
@@ -136,6 +162,7 @@ def getGlob : Glob → Val
   | .Uninitialized => .id uninit
   | .pre_tracer => .none
   | .post_tracer => .none
+  | .MethodType => .ty true
   | .other _ => .stuck
 
 def getAttr (C : WC) : Val → Attr → Val
@@ -147,7 +174,9 @@ def getAttr (C : WC) : Val → Attr → Val
   | .event, .name => .name
   | .self, .handler => .handler
   | .self, .object => .weak
-  | .self, .name => .name
+  | .self, .name => (match C.wrapName with | some k => .nameV k | none => .none)
+  | .cand, .dunder_self => (match C.cand with | .method (some o) _ => .id o | .method none _ => .none | _ => .stuck)
+  | .cand, .dunder_name => (match C.cand with | .method _ k => .nameV k | _ => .stuck)
   | _, _ => .stuck
 
 /-- The user's handler is called with the change: logged, may raise, may unregister the wrapper. -/
@@ -165,7 +194,7 @@ def callFn (C : WC) : Fn → List Val → MS → R
     (.ok (.bool (changeAccepted C.E.cmp C.t.kind C.t.flags o n)),
      { ms with s := if o = uninit then ms.s else ms.s.ensureItrait })
   | .bool, [.bool b], ms => (.ok (.bool b), ms)
-  | .getattr, [.object, .name], ms => (.ok .handler, ms)
+  | .getattr, [.object, .nameV _], ms => (.ok .handler, ms)
   | .handle_exception_legacy, [.object, .name, .id _, .id _], ms =>
     (match ms.cur with
      | some e => if C.E.reraiseLegacy then (.error e, ms) else (.ok .none, ms)
@@ -190,6 +219,9 @@ def callFn (C : WC) : Fn → List Val → MS → R
     (match callWrapper C.E C.t C.n C.loc o n ms.s with
      | (none, s) => (.ok .none, { ms with s := s })
      | (some e, s) => (.error e, { ms with s := s }))
+  | .type_of, [.cand], ms => (.ok (.ty (match C.cand with | .method _ _ => true | _ => false)), ms)
+  | .type_of, [.self], ms => (.ok (.ty false), ms)
+  | .owner_deref, [.self], ms => (.ok (match C.wrapOwner with | some o => .id o | none => .none), ms)
   | .weak_deref, [.weak], ms => (.ok .object, ms)
   | .weak_deref, [.handler], ms => (.ok .handler, ms)
   | .weak_deref, [.self], ms => (.ok .object, ms)
@@ -231,6 +263,11 @@ def eval (C : WC) : Expr → MS → R
           (match v, w with
            | .id x, .id y => triVal ms2 (C.E.cmp.eqv x y)
            | .int x, .int y => (.ok (.bool (decide (x = y))), ms2)
+           | .nameV x, .nameV y => (.ok (.bool (decide (x = y))), ms2)
+           | .nameV _, .none => (.ok (.bool false), ms2)
+           -- `handler == self.handler`: callables compare by identity
+           | .cand, .handler => (.ok (.bool (decide (C.cand = .func C.wrapFn))), ms2)
+           | .self, .handler => (.ok (.bool false), ms2)
            | _, _ => (.ok .stuck, ms2))
         | r => r)
      | r => r)
